@@ -3,6 +3,7 @@ CONSTANTS
   Alphabet = {1,2}
   MaxLen = 4
   BruteLen = 0
+  GapVals <- MCGapNeg
   FreeGaps = TRUE
 INIT Init
 NEXT Next
